@@ -53,7 +53,6 @@ type Frame struct {
 	result Val
 	loops  map[*ssa.BasicBlock]*loopSnap // loop heads active on this path
 	fi     *funcInfo
-	rangeCells []*localCell
 }
 
 type loopSnap struct {
@@ -61,6 +60,7 @@ type loopSnap struct {
 	dec  string
 	allocBase string
 	mods []modEntry
+	callLogLen int // length of the call log when the loop head was (last) entered on this path
 }
 
 type State struct {
